@@ -142,8 +142,89 @@ fn answer(line: &str) -> String {
                 guarded(|| (probe.is_match(&path) as u8).to_string())
             }
         }
+        "R" => {
+            // R <kind>: BenchArgs probe (type-erased argument slice): names and the value each index receives
+            let kind = it.next().unwrap_or("i64").to_owned();
+            guarded(move || args_probe(&kind))
+        }
         _ => "?".to_owned(),
     }
+}
+
+static RECEIVED: std::sync::Mutex<Vec<String>> = std::sync::Mutex::new(Vec::new());
+
+#[derive(Debug, Clone, Copy)]
+struct Zst;
+
+fn args_probe(kind: &str) -> String {
+    use divan::{
+        verif::{args_bench, args_names, run_bencher, LoopConfig},
+        Bencher,
+        __private::{BenchArgs, BenchOptions},
+    };
+    static A_I64: BenchArgs = BenchArgs::new();
+    static A_SLICE: BenchArgs = BenchArgs::new();
+    static A_STRING: BenchArgs = BenchArgs::new();
+    static A_ZST: BenchArgs = BenchArgs::new();
+    static A_EMPTY: BenchArgs = BenchArgs::new();
+    RECEIVED.lock().unwrap().clear();
+    let runner = match kind {
+        "i64" => A_I64.runner(
+            || vec![10i64, 9, -3, 100],
+            |a| a.to_string(),
+            |b: Bencher, a: &i64| {
+                RECEIVED.lock().unwrap().push(a.to_string());
+                b.bench_local(|| ());
+            },
+        ),
+        "strslice" => {
+            static ITEMS: &[&str] = &["b", "a", "c10"];
+            A_SLICE.runner(
+                || ITEMS,
+                |a| a.to_string(),
+                |b: Bencher, a: &&&str| {
+                    RECEIVED.lock().unwrap().push(a.to_string());
+                    b.bench_local(|| ());
+                },
+            )
+        }
+        "string" => A_STRING.runner(
+            || vec!["x".to_owned(), "yy".to_owned()],
+            |a| a.to_string(),
+            |b: Bencher, a: &String| {
+                RECEIVED.lock().unwrap().push(a.clone());
+                b.bench_local(|| ());
+            },
+        ),
+        "zst" => A_ZST.runner(
+            || [Zst, Zst, Zst],
+            |a| format!("{a:?}"),
+            |b: Bencher, a: &Zst| {
+                RECEIVED.lock().unwrap().push(format!("{a:?}"));
+                b.bench_local(|| ());
+            },
+        ),
+        _ => A_EMPTY.runner(
+            || Vec::<u8>::new(),
+            |a| a.to_string(),
+            |b: Bencher, a: &u8| {
+                RECEIVED.lock().unwrap().push(a.to_string());
+                b.bench_local(|| ());
+            },
+        ),
+    };
+    let names: Vec<String> = args_names(&runner).iter().map(|s| s.to_string()).collect();
+    let cfg = LoopConfig { test: true, tsc: false, threads: 1, options: BenchOptions::default() };
+    // visit in a scrambled order
+    let n = names.len();
+    let mut order: Vec<usize> = (0..n).rev().collect();
+    order.rotate_left(n.min(1));
+    for &i in &order {
+        run_bencher(&cfg, &mut |b| args_bench(&runner, b, i));
+    }
+    let got = RECEIVED.lock().unwrap().clone();
+    let want: Vec<String> = order.iter().map(|&i| names[i].clone()).collect();
+    format!("names={} received={} match={}", names.join("|"), got.join("|"), (got == want) as u8)
 }
 
 fn main() {
